@@ -12,10 +12,7 @@ import re
 def _core(key):
     def add(u):
         import core_kernel
-        c = core_kernel.contracts()[key]
-        c.stub = True
-        c.entry = None
-        u.fn('core', key, c)
+        core_kernel.add_core_items(u, skip_existing=True)
     return add
 
 
@@ -36,13 +33,15 @@ def _wide(key):
 
 # short name -> (key, adder, home unit, spec files the contract's vocabulary lives in)
 AUTO = {
-    'ten_pow': ('powers_of_ten::ten_pow', _core('powers_of_ten::ten_pow'), 'core_kernel', ['base.rs']),
-    'checked_ten_pow': ('powers_of_ten::checked_ten_pow', _core('powers_of_ten::checked_ten_pow'), 'core_kernel', ['base.rs']),
-    'mul_pow_ten': ('powers_of_ten::mul_pow_ten', _core('powers_of_ten::mul_pow_ten'), 'core_kernel', ['base.rs']),
-    'checked_mul_pow_ten': ('powers_of_ten::checked_mul_pow_ten', _core('powers_of_ten::checked_mul_pow_ten'), 'core_kernel', ['base.rs']),
-    'adjust_coeffs': ('adjust_coeffs', _core('adjust_coeffs'), 'core_kernel', ['base.rs']),
-    'checked_adjust_coeffs': ('checked_adjust_coeffs', _core('checked_adjust_coeffs'), 'core_kernel', ['base.rs']),
-    'i128_div_mod_floor': ('i128_div_mod_floor', _core('i128_div_mod_floor'), 'core_kernel', ['base.rs']),
+    'ten_pow': ('powers_of_ten::ten_pow', _core('powers_of_ten::ten_pow'), 'core_kernel', ['base.rs', 'rounding.rs']),
+    'checked_ten_pow': ('powers_of_ten::checked_ten_pow', _core('powers_of_ten::checked_ten_pow'), 'core_kernel', ['base.rs', 'rounding.rs']),
+    'mul_pow_ten': ('powers_of_ten::mul_pow_ten', _core('powers_of_ten::mul_pow_ten'), 'core_kernel', ['base.rs', 'rounding.rs']),
+    'checked_mul_pow_ten': ('powers_of_ten::checked_mul_pow_ten', _core('powers_of_ten::checked_mul_pow_ten'), 'core_kernel', ['base.rs', 'rounding.rs']),
+    'adjust_coeffs': ('adjust_coeffs', _core('adjust_coeffs'), 'core_kernel', ['base.rs', 'rounding.rs']),
+    'checked_adjust_coeffs': ('checked_adjust_coeffs', _core('checked_adjust_coeffs'), 'core_kernel', ['base.rs', 'rounding.rs']),
+    'i128_div_mod_floor': ('i128_div_mod_floor', _core('i128_div_mod_floor'), 'core_kernel', ['base.rs', 'rounding.rs']),
+    'round_quot': ('rounding::round_quot', _core('rounding::round_quot'), 'core_kernel', ['base.rs', 'rounding.rs']),
+    'i128_div_rounded': ('rounding::i128_div_rounded', _core('rounding::i128_div_rounded'), 'core_kernel', ['base.rs', 'rounding.rs']),
     'i128_magnitude': ('i128_magnitude', _magnitude, 'magnitude', ['base.rs', 'std_assumed.rs']),
     'i128_shifted_div_mod_floor': ('i128_shifted_div_mod_floor', _wide('i128_shifted_div_mod_floor'), 'wide', ['base.rs', 'rounding.rs']),
     'i256_div_mod_floor': ('i256_div_mod_floor', _wide('i256_div_mod_floor'), 'wide', ['base.rs', 'rounding.rs']),
@@ -61,6 +60,8 @@ def extend(unit, names):
             return None
         key, add, home, specs = AUTO[n]
         if key in unit.fn_contracts:
+            if home in homes:
+                continue      # added together with an earlier name of the same home (core items)
             return None
         for sp in specs:
             if sp not in unit.specs:
